@@ -985,6 +985,20 @@ pub fn gen_op(m: &Model, p: &Profile, seed: &OpSeed) -> Option<Op> {
         K::Stats => format!("STATS {}", ["u", "m", "o"][s.pick(3)]),
         K::NewUser | K::RawConnect | K::RegLine | K::DropUnreg | K::Contend => unreachable!(),
     };
+    // A client may put a ':source' prefix in front of its own lines; the server accepts any
+    // syntactically valid one and ignores it: what it relays carries the sender's real source.
+    let line = if s.chance(4) {
+        let other: Option<String> = m.users.values().find(|u| u.nick != nick).map(|u| u.source());
+        let src = match s.pick(4) {
+            0 => nick.clone(),
+            1 => other.unwrap_or_else(|| nick.clone()),
+            2 => "ghost!~nobody@192.0.2.1".to_string(),
+            _ => m.users.get(&nick).map(|u| u.source()).unwrap_or_else(|| nick.clone()),
+        };
+        format!(":{} {}", src, line)
+    } else {
+        line
+    };
     Some(Op::Line(c, line))
 }
 
